@@ -398,7 +398,7 @@ func (h *H) settle() {
 			h.token = false
 			h.mu.Unlock()
 			h.record(fmt.Sprintf("SB:%d", a.sh.sid), "ok")
-		case <-time.After(10 * time.Second):
+		case <-time.After(3 * time.Second):
 			h.fatal = "schedule not realisable: no sync goroutine reached wal.Sync although syncCond was signalled"
 			return
 		}
